@@ -304,7 +304,9 @@ def cycles_scenario(rng, method):
         for i in range(1, g.nr + 1): acts += [f"?rawreg r{i}", f"rawpost r{i}"]
         L.append("do " + " ; ".join(acts))
         L.append("main")
-        L.append("do " + " ; ".join(cleanup))
+        keep = burst and rng.random() < 0.4     # tear the loop down with the burst of timers still registered
+        # (the flush run then ends through the guard timer's iv_quit, as the loop still has the burst registered)
+        L.append("do " + " ; ".join([c for c in cleanup if not (keep and c.startswith("tburstoff"))] + (["trel t63 1000"] if keep else [])))
         L.append("main")
         L.append("cycle")
     return L
